@@ -13,6 +13,13 @@ Tie
      proved in Props/C06.lean) must accept it (simple cycles of existing non-special bonds, GF(2)-independent,
      count = cyclomatic number) and its size multiset must equal that of the Lean reference minimum cycle basis
      (Horton candidates + greedy, self-certified by `checkSssr`), before and after random renumbering.
+  P (PID stage, round 5): the Lean model of `_bfs`, `_make_pid`, `_c_set`, `_rings_filter` (+ `_connected_rings`,
+     `_get_unique_chord`, `_is_condensed_ring`) — Model/C06Pid.lean — is compared stage by stage with the REAL source of
+     rings.py executed under ascending set order (c06_sorted.py: AST rewrite of the set-valued expressions of the file as it
+     is on this run). Proved for all graphs about that model: every emitted ring is a simple cycle of the input graph, no
+     ring twice, exactly rings_count rings.
+  M (minimality, round 5): `checkMinimalHorton` (exchange criterion over GF(2), proved sound AND complete) decides per run
+     whether the reported basis is minimum w.r.t. Horton's candidate family; Horton completeness is the named hypothesis.
 The two heuristic gaps recorded in the property text are filtered out of the minimality clause and the polycyclic
 generalisation of the first one is a known finding (`gap_class`, `exempt`).
 """
@@ -28,21 +35,29 @@ LEVEL = 'translation_validation'
 LEVEL_TEXT = ('The ring basis itself comes from a heuristic (PID matrices + filters) for which no universally quantified theorem '
               'holds (the property records two gaps), so each reported basis is certified run by run by a Lean checker whose '
               'soundness is a theorem (simple cycles, GF(2) independence by Gaussian elimination, count = cyclomatic number); '
-              'minimality / size multiset is decided against an executable Lean reference (Horton + greedy) that certifies its own '
-              'output with the same checker. The exactly-modelled sub-algorithms (components, 2-core pruning, cyclomatic count, '
-              'ring canonical form, per-atom ring views and ring marks) are proved for all inputs and tied to the code by '
-              'output equality on generated graphs. Translation validation is the honest level: the decisive step is a proved '
-              'checker applied to the code\'s outputs.')
-LEVEL_NOTE = ('Lean kernel; hand-written model Model/C06Rings.lean validated by correspondence, not derived from the Python text; '
-              'Spec/CycleBasis.lean written from the textbook definitions; the reference minimum basis is validated '
-              '(Horton completeness is not proved in Lean), so the minimality clause is validated, not proved; wire encoder; '
-              'CachedMethods shim.')
-TECHNIQUE = 'Lean 4 proved checker (GF(2) Gaussian elimination) on the implementation\'s SSSR + exact functional models of the sub-algorithms, differential line protocol'
+              'minimality is decided per run by a second proved checker (exchange criterion over GF(2): every Horton candidate '
+              'is a sum of reported rings that are not longer; sound and complete, Horton completeness being the one named '
+              'hypothesis) and cross-checked against an executable Lean reference (Horton + greedy) that certifies its own '
+              'output. The whole heuristic (_bfs, _make_pid, _c_set, _rings_filter and its helpers) is inside an exact Lean '
+              'model since round 5; for that model it is proved for all graphs that every emitted ring is a simple cycle of '
+              'the input graph, none is listed twice and exactly rings_count rings come out; the model is tied to the code by '
+              'stage-by-stage output equality with the real source run under ascending set order. The other exactly-modelled '
+              'sub-algorithms (components, 2-core pruning, cyclomatic count, ring canonical form, per-atom ring views and ring '
+              'marks) are proved for all inputs and tied by output equality on generated graphs. Translation validation is '
+              'the honest level: independence and minimality are verdicts of proved checkers applied to the code\'s outputs.')
+LEVEL_NOTE = ('Lean kernel; hand-written models Model/C06Rings.lean and Model/C06Pid.lean validated by correspondence, not derived '
+              'from the Python text; CPython set iteration order is replaced by ascending order on both sides (AST rewrite of '
+              'rings.py in c06_sorted.py); Spec/CycleBasis.lean and Spec/CycleBasisMin.lean written from the textbook '
+              'definitions; Horton completeness (HortonComplete g) is a named hypothesis, validated per run, not proved in Lean; '
+              'wire encoder; CachedMethods shim.')
+TECHNIQUE = 'Lean 4 proved checkers (GF(2) Gaussian elimination; exchange criterion for minimality) on the implementation\'s SSSR + exact functional model of the whole heuristic and its sub-algorithms with universally quantified theorems, differential line protocol'
 RULE = ('one case = one molecular graph in a concrete atom numbering and dict insertion order (wire ints) together with the ring '
         'list the implementation reported for it; generated as: every labelled connected graph with <= 6 atoms (quick; <= 7 atoms '
         'and <= 5 rings thorough) of degree <= 4, one representative per isomorphism class of 7-atom (<= 5 rings) and 8-atom '
         '(<= 3 rings) graphs under random renumberings, theta graphs with bridges 1..6, random fused/spiro/bridged ring assemblies '
         'and macrocycles with random coordinate (order 8) and aromatic (order 4) bonds, pendant chains and extra components, '
+        'small strained cages (bicyclo[1.1.0]/[1.1.1]/[2.1.1]/propellane-like cores with 1-4 further fused / spiro / bridging '
+        'rings, <= 12 atoms) under 7-14 numberings each, '
         'corpus / handmade / test/*.sdf molecules, each also after random renumbering; plus random EDIT HISTORIES (add/delete '
         'bond and atom incl. coordinate bonds, committed and rolled-back transactions with reads inside, copy, remap, union, '
         'substructure, split, kekule/thiele, hydrogen / coordinate-bond / metal standardisation steps) on organometallic, '
@@ -52,11 +67,15 @@ RULE = ('one case = one molecular graph in a concrete atom numbering and dict in
         'random tuples for _canonic_ring/_ring_scissors/_ring_adjacency (non-trivial: length >= 3)')
 TRUSTED = ['harness/wire.py molecule encoder and the field canonicalisers of harness/props/c06.py',
            'Spec/CycleBasis.lean definitions (IsSimpleCycle, ringVec, Independent) as the meaning of the clauses',
-           'reference minimum cycle basis (Horton candidate completeness: textbook result, validated against exhaustive '
-           'all-cycles greedy in Python for <= 6 atoms, not proved in Lean)']
+           'Horton candidate completeness (named hypothesis HortonComplete of sssr_minimum_of_horton_complete: textbook result, '
+           'validated against exhaustive all-cycles greedy in Python for <= 6 atoms, not proved in Lean)',
+           'harness/props/c06_sorted.py: the AST rewrite that runs rings.py under ascending set order changes set-valued '
+           'expressions only']
 ASSUMPTIONS = ['molecule adjacency is symmetric and closed (Graph invariant; the driver answers `malformed` otherwise)',
                'CPython set iteration order is not modelled: components are compared as sorted blocks; dict key order and the order '
-               'of rings inside per-atom lists are not part of the property and are sorted before comparing',
+               'of rings inside per-atom lists are not part of the property and are sorted before comparing; the PID stage is '
+               'compared under ascending set order on both sides, the unmodified mol.sssr differs from that on 1-2 % of the cases '
+               'by an equally valid choice (counted as pid-numbering-tie-with-mol.sssr) and is certified relationally as before',
                'classes excluded from the minimality / numbering clauses only (gap_class): recorded bicyclic cores with three bridges '
                'of >= 3 bonds; recorded dense cages (block with >= 6 independent rings and average degree >= 3; there also dependent '
                'sets / ImplementationError); known finding C06/not-minimum/multi-bridge-core (polycyclic block, two atoms at '
